@@ -17,7 +17,7 @@ PROP = dict(
     level_note=("PARTIAL: the theorems are about the model and the checker; that the Go code has the one-mutex design and is free of data races is TESTED "
                 "(sampled schedules of the Go scheduler under -race, GOMAXPROCS 1-16, injected pauses), not proved. Trusted: Coq kernel+VM, the race detector, "
                 "sequentially consistent atomics for the stamp counter."),
-    rule=("640 generated programs (thorough 12000): 2/3 direct db.DB, 1/3 through the HTTP mux; shapes random / all-puts / activate-vs-readers / delete-vs-put / "
+    rule=("640 generated programs (thorough 5000): 2/3 direct db.DB, 1/3 through the HTTP mux; shapes random / all-puts / activate-vs-readers / delete-vs-put / "
           "delete-version-vs-info; one case = one recorded history (<= 15 calls, <= 11 concurrent) with the final dump; non-trivial if a successful mutation overlaps in "
           "real time with a call of another client; distinct by stamped history"),
     explain=("no order of the recorded calls that respects real time explains every response and the final state by the sequential model (or: the race detector / "
